@@ -27,118 +27,286 @@ EXPLANATION = (
 ASSUMPTIONS = ["backend qr/svd/eigh/solve act on each block independently"]
 
 
-def _single_assign(f, name):
-    d = [a for a in walk_own(f.node) if isinstance(a, ast.Assign) and len(a.targets) == 1 and src(a.targets[0]) == name]
-    return d[0] if len(d) == 1 else None
+def _cases(prog):
+    """small matrices over shaped tokens: every direction pattern, even/odd (zero/non-zero) charge, unequal block
+    sizes (tall and wide blocks), with and without missing blocks"""
+    from engine.absarray import Model, all_sectors
+
+    out = []
+    for sym, rows, cols, charges in (
+        ("Z2", {0: 2, 1: 5}, {0: 4, 1: 3}, (0, 1)),
+        ("U1", {-1: 2, 0: 3, 1: 4}, {-1: 5, 0: 1, 2: 2, 1: 3}, (0, 1, -1)),
+        ("Z2Z2", {(0, 0): 2, (0, 1): 1, (1, 1): 3}, {(0, 0): 1, (0, 1): 4, (1, 0): 2, (1, 1): 2}, ((0, 0), (0, 1))),
+    ):
+        model = Model(sym)
+        for d0 in (False, True):
+            for d1 in (False, True):
+                for ch in charges:
+                    secs = all_sectors(model, (d0, d1), ch, (rows, cols))
+                    if not secs:
+                        continue
+                    drops = [()]
+                    if len(secs) > 1:
+                        drops.append((secs[0],))
+                    for drop in drops:
+                        # charges that no stored sector uses are absent from a valid array's tables only after sync; keep them
+                        out.append((sym, (d0, d1), ch, (dict(rows), dict(cols)), drop))
+    return out
+
+
+def _ix(o):
+    return (dict(o.fields["_chargemap"]), o.fields["_dual"])
 
 
 def check_factor_bonds(prog, ctx):
+    """R11.1 by abstract evaluation: qr and svd are evaluated (checker's evaluator, block contents are shaped tokens, the
+    backend factorisation of an m x n block returns tokens of shapes (m,k),(k,n), k=min(m,n)) on small matrices; the
+    factors' structure is compared with the promise and both are audited with the C01 validity predicate."""
+    from engine.absarray import audit, shaped_array, shaped_evaluator
+    from engine.minieval import Obj, Raised, Unsupported
+
     rid = "R11.1"
-    for fname, left_names, has_s in (("qr", ("q", "r"), False), ("svd", ("u", "v"), True)):
+    for fname, nout in (("qr", 2), ("svd", 3)):
         f = prog.func(f"symmray.linalg:{fname}")
-        x = f.params()[0]
-        loops = [n for n in walk_own(f.node) if isinstance(n, ast.For) and src(n.iter) == f"{x}.blocks.items()"]
-        ctx.need(len(loops) == 1, f"{fname}: loop over the input blocks not found")
-        lp = loops[0]
-        sec = src(lp.target.elts[0])
-        stores = {}
-        for s in lp.body:
-            if isinstance(s, ast.Assign) and isinstance(s.targets[0], ast.Subscript) and isinstance(s.targets[0].value, ast.Name):
-                stores[s.targets[0].value.id] = (s.targets[0].slice, s.value)
-        # local aliases inside the loop (s_charge = sector[1], v_sector = (s_charge, s_charge))
-        alias = {}
-        for s in lp.body:
-            if isinstance(s, ast.Assign) and isinstance(s.targets[0], ast.Name):
-                alias[s.targets[0].id] = s.value
+        wit = {}
+        n = 0
 
-        def norm(e, depth=0):
-            """inline loop-local aliases"""
-            if depth > 4:
-                return src(e)
-            if isinstance(e, ast.Name) and e.id in alias and not isinstance(alias[e.id], ast.Call):
-                return norm(alias[e.id], depth + 1)
-            if isinstance(e, ast.Tuple):
-                return "(" + ", ".join(norm(x_, depth + 1) for x_ in e.elts) + ")"
-            return src(e)
+        def bad(key, msg):
+            wit.setdefault(key, msg)
 
-        # bond index
-        bi = [a for a in walk_own(f.node) if isinstance(a, ast.Assign) and isinstance(a.value, ast.Call) and src(a.value.func) == "BlockIndex"]
-        ctx.need(len(bi) == 1, f"{fname}: bond index construction not found")
-        B = src(bi[0].targets[0])
-        cm = src(bi[0].value.args[0])
-        kws = {k.arg: src(k.value) for k in bi[0].value.keywords}
-        ctx.check(kws.get("dual") == f"{x}.indices[1].dual", rid, f, bi[0], src(bi[0]), f"{fname}: the bond takes the direction of the input's second index")
-        ctx.check(cm in stores and norm(stores[cm][0]) == f"{sec}[1]", rid, f, lp, f"{cm} key", f"{fname}: the bond charge table is keyed by the column charge {sec}[1]")
-        if cm in stores:
-            v = stores[cm][1]
-            okv = isinstance(v, ast.Subscript) and src(v.slice) == "1" and isinstance(v.value, ast.Call) and src(v.value.func) == "ar.shape"
-            ctx.check(okv, rid, f, lp, src(v), f"{fname}: the bond size of a charge is the left block's column count")
-            if okv:
-                lb = src(v.value.args[0])
-                # the left block variable is the first output of the block decomposition and is stored under `sector`
-                left_dicts = [d for d, (k, val) in stores.items() if src(val) == lb and norm(k) == sec]
-                ctx.check(len(left_dicts) == 1, rid, f, lp, f"left blocks {left_dicts}", f"{fname}: the left factor's block is stored under the input sector")
-        # left factor
-        lcall = [c for c in walk_own(f.node) if isinstance(c, ast.Call) and src(c.func) == f"{x}.copy_with"]
-        ctx.need(len(lcall) == 1, f"{fname}: left factor construction not found")
-        lk = {k.arg: src(k.value).replace(" ", "") for k in lcall[0].keywords}
-        ctx.check(lk.get("indices") == f"({x}.indices[0],{B})", rid, f, lcall[0], lk.get("indices"), f"{fname}: left factor has (input row index, bond)")
-        ctx.check("charge" not in lk and "phases" not in lk, rid, f, lcall[0], str(sorted(lk)), f"{fname}: left factor keeps the input's total charge")
-        # right factor
-        rcall = [c for c in walk_own(f.node) if isinstance(c, ast.Call) and src(c.func) == f"{x}.__class__"]
-        ctx.need(len(rcall) == 1, f"{fname}: right factor construction not found")
-        rk = {k.arg: src(k.value).replace(" ", "") for k in rcall[0].keywords}
-        ctx.check(rk.get("indices") == f"({B}.conj(),{x}.indices[1])", rid, f, rcall[0], rk.get("indices"),
-                  f"{fname}: right factor has (conjugate of the same bond, input column index)")
-        ctx.check(rk.get("charge") == f"{x}.symmetry.combine()" and rk.get("symmetry") == f"{x}.symmetry", rid, f, rcall[0], rk.get("charge"),
-                  f"{fname}: right factor has the identity charge and the input's symmetry")
-        rb = rk.get("blocks")
-        ctx.check(rb in stores and norm(stores[rb][0]).replace(" ", "") == f"({sec}[1],{sec}[1])", rid, f, lp, f"{rb} key",
-                  f"{fname}: right factor's sectors are (c, c) for the column charge c")
-        if has_s:
-            sv = [c for c in walk_own(f.node) if isinstance(c, ast.Call) and src(c.func) == "BlockVector"]
-            ctx.need(len(sv) == 1, "svd: singular value vector not found")
-            sd = src(sv[0].args[0])
-            ctx.check(sd in stores and norm(stores[sd][0]) == f"{sec}[1]", rid, f, lp, f"{sd} key", "svd: singular values are keyed by the column charge")
-        # 2-d only
-        g = [n for n in walk_own(f.node) if isinstance(n, ast.If) and src(n.test) == f"{x}.ndim != 2" and isinstance(n.body[0], ast.Raise)]
-        ctx.check(len(g) == 1, rid, f, f.node, "ndim guard", f"{fname}: anything but a matrix raises")
-    ctx.minimum(rid, 18, "qr (9) + svd (10)")
+        for sym, duals, ch, cms, drop in _cases(prog):
+            x = shaped_array(prog, sym, duals, ch, cms, drop=drop)
+            ev = shaped_evaluator(prog)
+            where = f"{sym} duals={duals} charge={ch} missing={list(drop)}"
+            try:
+                res = ev.call(f, [x])
+            except Unsupported as e:
+                raise AnalysisError(f"{fname} outside the evaluable sub-language: {e}")
+            except (Raised, KeyError, TypeError, AttributeError, ValueError, IndexError) as e:
+                bad("runs", f"{where}: {type(e).__name__}: {getattr(e, 'what', e)}")
+                continue
+            n += 1
+            if not isinstance(res, tuple) or len(res) != nout:
+                bad("runs", f"{where}: returns {type(res).__name__} of length {len(res) if isinstance(res, tuple) else '?'}")
+                continue
+            left, right = res[0], res[-1]
+            for nm, o in (("left", left), ("right", right)):
+                for pr in audit(o, sym, want_class="AbelianArray"):
+                    bad("valid", f"{where}: {nm} factor: {pr}")
+            if wit.get("valid"):
+                continue
+            xb = x.fields["_blocks"]
+            k = {s[1]: min(t.shape) for s, t in xb.items()}
+            B = left.fields["_indices"][1]
+            Bc = right.fields["_indices"][0]
+            if _ix(left.fields["_indices"][0]) != _ix(x.fields["_indices"][0]) or _ix(right.fields["_indices"][1]) != _ix(x.fields["_indices"][1]):
+                bad("outer", f"{where}: the factors do not keep the input's row index on the left and column index on the right")
+            if B.fields["_dual"] != duals[1]:
+                bad("direction", f"{where}: the bond on the left factor has direction {B.fields['_dual']}, the input's column index has {duals[1]}")
+            if Bc.fields["_dual"] == B.fields["_dual"]:
+                bad("direction", f"{where}: the bond has the same direction on both factors")
+            if dict(B.fields["_chargemap"]) != dict(sorted(k.items())) or dict(Bc.fields["_chargemap"]) != dict(sorted(k.items())):
+                bad("table", f"{where}: bond charge tables {B.fields['_chargemap']} / {Bc.fields['_chargemap']}, expected one charge per "
+                             f"input block keyed by its column charge with the factor's column count: {dict(sorted(k.items()))}")
+            lb, rb = left.fields["_blocks"], right.fields["_blocks"]
+            if set(lb) != set(xb):
+                bad("sectors", f"{where}: left factor sectors {sorted(lb)} != input sectors {sorted(xb)}")
+            if set(rb) != {(s[1], s[1]) for s in xb}:
+                bad("sectors", f"{where}: right factor sectors {sorted(rb)} are not (c, c) for the column charges c")
+            lname, rname = ("q", "r") if fname == "qr" else ("u", "vh")
+            for s, t in xb.items():
+                if s in lb and getattr(lb[s], "term", None) != (lname, t.term):
+                    bad("blocks", f"{where}: left block {s} is {lb[s]!r}, not the {lname}-factor of input block {s}")
+                if (s[1], s[1]) in rb and getattr(rb[(s[1], s[1])], "term", None) != (rname, t.term):
+                    bad("blocks", f"{where}: right block {(s[1], s[1])} is {rb[(s[1], s[1])]!r}, not the {rname}-factor of input block {s}")
+            if left.fields["_charge"] != ch or right.fields["_charge"] != shaped_identity(sym):
+                bad("charge", f"{where}: charges ({left.fields['_charge']}, {right.fields['_charge']}), expected ({ch}, identity)")
+            if left.fields["_symmetry"].cls is not x.fields["_symmetry"].cls or right.fields["_symmetry"].cls is not x.fields["_symmetry"].cls:
+                bad("charge", f"{where}: a factor does not carry the input's symmetry")
+            if fname == "svd":
+                sv = res[1]
+                sb = sv.fields["_blocks"] if isinstance(sv, Obj) else None
+                if sb is None or {c: getattr(t, "term", None) for c, t in sb.items()} != {s[1]: ("s", t.term) for s, t in xb.items()}:
+                    bad("values", f"{where}: singular values are not keyed by the column charge of the block they come from")
+                elif any(t.shape != (k[c],) for c, t in sb.items()):
+                    bad("values", f"{where}: singular value counts do not match the bond sizes")
+        # rank guard
+        for nd in (1, 3):
+            x = shaped_array(prog, "Z2", (False,) * nd, 0, tuple({0: 2, 1: 2} for _ in range(nd)))
+            try:
+                shaped_evaluator(prog).call(f, [x])
+                bad("rank", f"a {nd}-dimensional input is accepted")
+            except Raised:
+                pass
+            except Unsupported as e:
+                raise AnalysisError(f"{fname} outside the evaluable sub-language: {e}")
+            except (KeyError, TypeError, AttributeError, ValueError, IndexError):
+                bad("rank", f"a {nd}-dimensional input fails with an unrelated error instead of the explicit rank error")
+        ctx.need(n >= 20 or wit, f"{fname}: only {n} abstract evaluations completed")
+        msgs = {
+            "runs": f"{fname}: evaluates on every small matrix ({n} cases)",
+            "valid": f"{fname}: both factors are valid arrays (sector charges, block shapes, sorted positive tables)",
+            "outer": f"{fname}: left factor keeps the input row index, right factor the input column index",
+            "direction": f"{fname}: the bond takes the direction of the input's second index on the left factor and the opposite on the right",
+            "table": f"{fname}: one bond charge per input block, keyed by the block's column charge, sized by the factor's column count",
+            "sectors": f"{fname}: left factor has the input's sectors, right factor (c, c) per column charge",
+            "blocks": f"{fname}: each factor block comes from the input block of the same column charge",
+            "charge": f"{fname}: left factor keeps the total charge, right factor has the identity charge, same symmetry",
+            "rank": f"{fname}: anything but a matrix raises",
+        }
+        if fname == "svd":
+            msgs["values"] = "svd: singular values keyed by column charge, counts equal to the bond sizes"
+        for key, msg in msgs.items():
+            ctx.check(key not in wit, rid, f, f.node, key, msg + ("" if key not in wit else f" — witness: {wit[key]}"))
+    ctx.minimum(rid, 19, "qr (9) + svd (10)")
+
+
+def shaped_identity(sym):
+    from engine.absarray import Model
+
+    return Model(sym).combine()
 
 
 def check_eigh_solve(prog, ctx):
+    """R11.3 by abstract evaluation of eigh and solve on small matrices / vectors of shaped tokens."""
+    from engine.absarray import Model, STok, all_sectors, audit, make_index, make_symmetry, shaped_array, shaped_evaluator
+    from engine.minieval import Obj, Raised, Unsupported
+
     rid = "R11.3"
     f = prog.func("symmray.linalg:eigh")
-    a = f.params()[0]
-    g = [n for n in walk_own(f.node) if isinstance(n, ast.If) and src(n.test) == f"{a}.charge != {a}.symmetry.combine()" and isinstance(n.body[0], ast.Raise)]
-    ctx.check(len(g) == 1, rid, f, f.node, "charge guard", "eigh raises unless the total charge is the identity")
-    loops = [n for n in walk_own(f.node) if isinstance(n, ast.For) and src(n.iter) == f"{a}.blocks.items()"]
-    ctx.need(len(loops) == 1, "eigh: block loop not found")
-    sec = src(loops[0].target.elts[0])
-    body = {src(s.targets[0]): src(s.value) for s in loops[0].body if isinstance(s, ast.Assign)}
-    ok = body.get("charge") == f"{sec}[1]" and body.get("eval_blocks[charge]") == "evals" and body.get(f"evec_blocks[{sec}]") == "evecs"
-    ctx.check(ok, rid, f, loops[0], str(body), "eigh: eigenvalues keyed by the column charge, eigenvectors by the input sector")
-    ev = [c for c in walk_own(f.node) if isinstance(c, ast.Call) and src(c.func) == f"{a}.copy_with"]
-    ctx.check(len(ev) == 1 and [k.arg for k in ev[0].keywords] == ["blocks"], rid, f, f.node, "eigenvectors", "eigenvectors keep the input's indices and charge")
+    wit = {}
+
+    def bad(key, msg):
+        wit.setdefault(key, msg)
+
+    n = 0
+    for sym, cm, odd in (("Z2", {0: 2, 1: 3}, 1), ("U1", {-1: 2, 0: 1, 1: 3}, 1), ("Z2Z2", {(0, 0): 2, (1, 0): 1, (1, 1): 2}, (0, 1))):
+        ident = shaped_identity(sym)
+        for d0 in (False, True):
+            duals = (d0, not d0)
+            secs = all_sectors(Model(sym), duals, ident, (cm, cm))
+            for drop in ((), (secs[0],)):
+                a = shaped_array(prog, sym, duals, ident, (dict(cm), dict(cm)), drop=drop)
+                where = f"{sym} duals={duals} missing={list(drop)}"
+                try:
+                    res = shaped_evaluator(prog).call(f, [a])
+                except Unsupported as e:
+                    raise AnalysisError(f"eigh outside the evaluable sub-language: {e}")
+                except (Raised, KeyError, TypeError, AttributeError, ValueError, IndexError) as e:
+                    bad("runs", f"{where}: {type(e).__name__}: {getattr(e, 'what', e)}")
+                    continue
+                n += 1
+                if not isinstance(res, tuple) or len(res) != 2 or not isinstance(res[0], Obj) or not isinstance(res[1], Obj):
+                    bad("runs", f"{where}: does not return (eigenvalues, eigenvectors)")
+                    continue
+                w, v = res
+                for pr in audit(v, sym, want_class="AbelianArray"):
+                    bad("vectors", f"{where}: eigenvectors: {pr}")
+                ab = a.fields["_blocks"]
+                if {c: getattr(t, "term", None) for c, t in w.fields["_blocks"].items()} != {s[1]: ("evals", t.term) for s, t in ab.items()}:
+                    bad("keys", f"{where}: eigenvalues {w.fields['_blocks']} are not keyed by the column charge of their block")
+                if {s: getattr(t, "term", None) for s, t in v.fields["_blocks"].items()} != {s: ("evecs", t.term) for s, t in ab.items()}:
+                    bad("keys", f"{where}: eigenvector blocks are not stored under the input sector")
+                if [_ix(i) for i in v.fields["_indices"]] != [_ix(i) for i in a.fields["_indices"]] or v.fields["_charge"] != ident:
+                    bad("vectors", f"{where}: eigenvectors do not keep the input's indices and charge")
+        # non-identity charge must raise (square blocks exist for odd charge when directions are equal; use any valid one)
+        a = shaped_array(prog, sym, (False, False), odd, (dict(cm), dict(cm)))
+        try:
+            shaped_evaluator(prog).call(f, [a])
+            bad("guard", f"{sym}: a matrix of total charge {odd} is accepted")
+        except Raised as e:
+            pass
+        except Unsupported as e:
+            raise AnalysisError(f"eigh outside the evaluable sub-language: {e}")
+        except (KeyError, TypeError, AttributeError, ValueError, IndexError) as e:
+            bad("guard", f"{sym}: a matrix of total charge {odd} fails with {type(e).__name__} instead of the explicit charge error")
+    ctx.need(n >= 8 or wit, f"eigh: only {n} abstract evaluations completed")
+    for key, msg in (("runs", f"eigh evaluates on every small identity-charge matrix ({n} cases)"),
+                     ("guard", "eigh raises unless the total charge is the identity"),
+                     ("keys", "eigh: eigenvalues keyed by the column charge, eigenvectors by the input sector"),
+                     ("vectors", "eigh: eigenvectors are a valid array with the input's indices and charge")):
+        ctx.check(key not in wit, rid, f, f.node, key, msg + ("" if key not in wit else f" — witness: {wit[key]}"))
+
     s = prog.func("symmray.linalg:solve")
-    pa, pb = s.params()[:2]
-    loops = [n for n in walk_own(s.node) if isinstance(n, ast.For) and src(n.iter) == f"{pa}.blocks.items()"]
-    ctx.need(len(loops) == 1, "solve: block loop not found")
-    sec = src(loops[0].target.elts[0])
-    txt = " ".join(src(x) for x in loops[0].body)
-    ok = f"b_sector = ({sec}[0],)" in txt and f"if b_sector in {pb}.blocks" in txt and f"x_sector = ({sec}[1],)" in txt \
-        and f"_solve(array, {pb}.blocks[b_sector])" in txt
-    ctx.check(ok, rid, s, loops[0], txt[:120], "solve: an a-block is paired with the b-block of its row charge; the solution block gets its column charge")
-    xc = [a_ for a_ in walk_own(s.node) if isinstance(a_, ast.Assign) and src(a_.targets[0]) == "x_charge"]
-    ctx.check(len(xc) == 1 and src(xc[0].value) == f"sym.combine({pb}.charge, sym.sign({pa}.charge))", rid, s, s.node, "x charge",
-              "solve: charge of the solution = charge(b) - charge(a)")
-    xcall = [c for c in walk_own(s.node) if isinstance(c, ast.Call) and src(c.func) == f"{pb}.copy_with"]
-    ok = len(xcall) == 1 and {k.arg: src(k.value) for k in xcall[0].keywords} == {
-        "blocks": "x_blocks", "indices": f"({pa}.indices[1].conj(),)", "charge": "x_charge"}
-    ctx.check(ok, rid, s, s.node, "x index", "solve: the solution carries the conjugate of a's column index")
-    g = [n for n in walk_own(s.node) if isinstance(n, ast.If) and src(n.test) == f"({pa}.ndim, {pb}.ndim) != (2, 1)" and isinstance(n.body[0], ast.Raise)]
-    ctx.check(len(g) == 1, rid, s, s.node, "ndim guard", "solve: matrix and vector ranks are enforced")
-    ctx.minimum(rid, 7, "eigh (3) + solve (4)")
+    wit = {}
+    n = 0
+    for sym, cm, charges in (("Z2", {0: 2, 1: 3}, (0, 1)), ("U1", {-1: 2, 0: 1, 1: 3}, (0, 1, -1)),
+                             ("Z2Z2", {(0, 0): 2, (1, 0): 1, (1, 1): 2}, ((0, 0), (1, 0)))):
+        model = Model(sym)
+        cm0 = cm
+        for d0 in (False, True):
+            for d1 in (False, True):
+                for ca in charges:
+                    for cb in charges:
+                        for db in (False, True):
+                            # the backend solves square blocks only: unequal sizes per charge are used where a's blocks are
+                            # diagonal (identity charge, opposite directions), equal sizes elsewhere
+                            if not (ca == model.combine() and d0 != d1):
+                                cm = {c: 3 for c in cm0}
+                            else:
+                                cm = dict(cm0)
+                            asecs = all_sectors(model, (d0, d1), ca, (cm, cm))
+                            if not asecs:
+                                continue
+                            a = shaped_array(prog, sym, (d0, d1), ca, (dict(cm), dict(cm)), tag="a")
+                            bsecs = all_sectors(model, (db,), cb, (cm,))
+                            if not bsecs:
+                                continue
+                            b = shaped_array(prog, sym, (db,), cb, (dict(cm),), tag="b")
+                            where = f"{sym} a: duals={(d0, d1)} charge={ca}; b: dual={db} charge={cb}"
+                            try:
+                                x = shaped_evaluator(prog).call(s, [a, b])
+                            except Unsupported as e:
+                                raise AnalysisError(f"solve outside the evaluable sub-language: {e}")
+                            except (Raised, KeyError, TypeError, AttributeError, ValueError, IndexError) as e:
+                                wit.setdefault("runs", f"{where}: {type(e).__name__}: {getattr(e, 'what', e)}")
+                                continue
+                            n += 1
+                            if not isinstance(x, Obj):
+                                wit.setdefault("runs", f"{where}: no array returned")
+                                continue
+                            # a contracts its column index with x: x's index is the conjugate of a's column index
+                            if len(x.fields["_indices"]) != 1 or _ix(x.fields["_indices"][0]) != (dict(cm), not d1):
+                                wit.setdefault("index", f"{where}: the solution's index is {[_ix(i) for i in x.fields['_indices']]}, "
+                                                        f"expected the conjugate of a's column index")
+                                continue
+                            want_charge = model.combine(cb, model.sign(ca))
+                            if x.fields["_charge"] != want_charge:
+                                wit.setdefault("charge", f"{where}: solution charge {x.fields['_charge']}, expected charge(b) - charge(a) = {want_charge}")
+                            # which blocks: a-block (r, c) pairs with b-block (r,) and produces x-block (c,)
+                            want = {}
+                            for (r, c), t in a.fields["_blocks"].items():
+                                if (r,) in b.fields["_blocks"]:
+                                    want[(c,)] = ("solve", t.term, b.fields["_blocks"][(r,)].term)
+                            got = {k_: getattr(t, "term", None) for k_, t in x.fields["_blocks"].items()}
+                            if got != want:
+                                wit.setdefault("pairing", f"{where}: solution blocks {got}, expected {want}")
+                            # validity of x holds whenever a's rows can meet b (same direction convention as the library's matvec)
+                            if db == d0 and x.fields["_blocks"]:
+                                # A x = b with b's index being a's row index
+                                for pr in audit(x, sym):
+                                    wit.setdefault("valid", f"{where}: solution: {pr}")
+    for nd in ((1, 1), (2, 2), (3, 1)):
+        a = shaped_array(prog, "Z2", (False,) * nd[0], 0, tuple({0: 2, 1: 2} for _ in range(nd[0])))
+        b = shaped_array(prog, "Z2", (False,) * nd[1], 0, tuple({0: 2, 1: 2} for _ in range(nd[1])))
+        try:
+            shaped_evaluator(prog).call(s, [a, b])
+            wit.setdefault("rank", f"operands of ranks {nd} are accepted")
+        except Raised:
+            pass
+        except Unsupported as e:
+            raise AnalysisError(f"solve outside the evaluable sub-language: {e}")
+        except (KeyError, TypeError, AttributeError, ValueError, IndexError):
+            wit.setdefault("rank", f"operands of ranks {nd} fail with an unrelated error instead of the explicit rank error")
+    ctx.need(n >= 20 or wit, f"solve: only {n} abstract evaluations completed")
+    for key, msg in (("runs", f"solve evaluates on every small system ({n} cases)"),
+                     ("pairing", "solve: an a-block is paired with the b-block of its row charge; the solution block gets its column charge"),
+                     ("charge", "solve: charge of the solution = charge(b) - charge(a)"),
+                     ("index", "solve: the solution carries the conjugate of a's column index"),
+                     ("valid", "solve: the solution is a valid array"),
+                     ("rank", "solve: matrix and vector ranks are enforced")):
+        ctx.check(key not in wit, rid, s, s.node, key, msg + ("" if key not in wit else f" — witness: {wit[key]}"))
+    ctx.minimum(rid, 10, "eigh (4) + solve (6)")
 
 
 def run(prog, ctx):
